@@ -45,6 +45,7 @@ type Engine struct {
 	requireAll bool
 	interior   *interiorInfo
 	constGlobals map[*ssa.Global]*ssa.Const
+	vcCache      map[string]string            // function -> hash of its verification conditions on the unchanged tree (vccache.go)
 	localTypes   map[string]map[string]string // unit key -> local named by its contract -> type (baseline)
 }
 
@@ -97,6 +98,7 @@ func LoadEngine(patterns []string) (*Engine, error) {
 	}
 	eng.scanInterior()
 	eng.scanConstGlobals()
+	eng.assignGlobalIDs()
 	eng.localTypes = loadLocalTypes()
 	// contracts: externals first, then per-package files from /repo (mirror as fallback)
 	if err := eng.specs.LoadSpecFile("/verif/contracts/externals.vspec", ""); err != nil {
